@@ -291,7 +291,9 @@ def _analyze_command(
                     and position > base_idx
                 ):
                     handler = get_handler(base)
-                    outer_result = handler.classify(HandlerContext(words[base_idx:]))
+                    outer_result = handler.classify(
+                        HandlerContext(words[base_idx:], cwd=cwd)
+                    )
                     if outer_result.action != "allow":
                         inner_cmd = _get_word_value(word).strip("$()")
                         decisions.append(
@@ -458,7 +460,7 @@ def _analyze_simple_command(
     # 4. Version/help checks (a handler that launches an inner command decides
     #    first: `sh -c 'cmd' -h` runs cmd, it is not a help query)
     handler = get_handler(base)
-    result = handler.classify(HandlerContext(tokens)) if handler else None
+    result = handler.classify(HandlerContext(tokens, cwd=cwd)) if handler else None
     if _is_version_or_help(tokens) and not (result and result.action == "delegate"):
         return Decision("allow", f"{base} --help")
 
@@ -551,9 +553,7 @@ def _analyze_cond_node(
         decisions = []
         for operand in (node.left, node.right):
             decisions.extend(
-                _analyze_word_parts(
-                    operand, config, cwd, remote=remote, scan_raw=True
-                )
+                _analyze_word_parts(operand, config, cwd, remote=remote, scan_raw=True)
             )
         return decisions
     elif kind in ("cond-and", "cond-or"):
